@@ -8,6 +8,9 @@ import (
 
 func TestWorker(t *testing.T) {
 	kit.WorkerMain(t, "annosim", map[string]kit.RunFunc{
+		"C11": runC11,
 		"C12": runC12,
+		"C13": runC13,
+		"C14": runC14,
 	})
 }
